@@ -280,11 +280,15 @@ def gain_case(p, res):
                 x = x1.reshape(shape)
                 h = h1 if len(shape) == 1 else h1.reshape(shape[0], -1)
                 try:
+                    x0_, h0_ = x.clone(), h.clone()
                     with Seam(Quantile()):
                         y = ch(x, csi=h)
                 except Exception as e:  # noqa: BLE001
                     res.viol(ft, cfg, "raises", f"csi supplied, noise by SNR: {type(e).__name__}: {str(e)[:200]}")
                     continue
+                if not torch.equal(x, x0_) or not torch.equal(h, h0_):
+                    res.viol(ft, cfg, "y=hx+n", f"the call modified the caller's {'signal' if not torch.equal(x, x0_) else 'csi'} tensor")
+                    x, h = x0_, h0_
                 res.ev(1, nontrivial=1, transitions=1)
                 hx = (h.reshape(-1) * x.reshape(-1)).to(torch.complex128)
                 nz = y.reshape(-1).to(torch.complex128) - hx
@@ -307,11 +311,15 @@ def gain_case(p, res):
                     x = (x1 * scale).reshape(shape)
                     h = h1 if len(shape) == 1 else h1.reshape(shape[0], -1)
                     try:
+                        x0_, h0_ = x.clone(), h.clone()
                         with Seam(Quantile()):
                             y = ch(x, csi=h)
                     except Exception as e:  # noqa: BLE001
                         res.viol(ft, cfg, "raises", f"csi supplied, noise by power: {type(e).__name__}: {str(e)[:200]}")
                         continue
+                    if not torch.equal(x, x0_) or not torch.equal(h, h0_):
+                        res.viol(ft, cfg, "y=hx+n", f"the call modified the caller's {'signal' if not torch.equal(x, x0_) else 'csi'} tensor")
+                        x, h = x0_, h0_
                     res.ev(1, nontrivial=1, transitions=1)
                     hx = (h.reshape(-1) * x.reshape(-1)).to(torch.complex128)
                     pn = float(((y.reshape(-1).to(torch.complex128) - hx).abs() ** 2).mean())
